@@ -141,6 +141,10 @@ func (p *Program) directiveObligations(prop string) (items []specialItem, reps [
 			it, rp := p.codecObligations(d)
 			items = append(items, it...)
 			reps = append(reps, rp)
+		case "route_handlers":
+			it, rp := p.routeHandlerObligations(d)
+			items = append(items, it...)
+			reps = append(reps, rp)
 		default:
 			fmt.Printf("UNDECIDED property=%s directive=%s reason=unknown directive\n", prop, d.Kind)
 		}
@@ -361,6 +365,125 @@ func (p *Program) codecObligations(d *Directive) (items []specialItem, rep *Func
 		walk(tn, obj.Type(), 0)
 	}
 	rep.Dropped = append(rep.Dropped, "struct tags, omitempty and custom (Un)Marshal method bodies are not interpreted: only the decodability of each field's static type is decided")
+	delete(p.tmpInit, x)
+	delete(p.tmpGlobals, x)
+	return
+}
+
+// routeHandlerObligations: directive route_handlers <func> <path>=<handler expression> ...
+// Enumerates the gorilla/mux registrations `<router>.Path("<path>")...HandlerFunc(<expr>)` in <func> and generates one
+// obligation per listed path (it is registered with exactly the handler expression the table names; spaces
+// ignored) and one per registration found (its path is in the table): the route table against its specification.
+func (p *Program) routeHandlerObligations(d *Directive) (items []specialItem, rep *FuncReport) {
+	pk := p.byPath[d.PkgPath]
+	args := strings.Fields(d.Args)
+	name := pk.Name + ".directive.route_handlers"
+	rep = &FuncReport{Name: name, Key: d.PkgPath + ".directive.route_handlers", Kind: "directive", File: strings.TrimPrefix(d.File, p.repo+"/"), Line: d.Line, Mode: "finite enumeration over the AST (complete)"}
+	if len(args) < 2 {
+		rep.Undecided = "usage: directive route_handlers <func> <path>=<handler> ..."
+		return
+	}
+	var decl *ast.FuncDecl
+	for fn, fd := range p.decls {
+		if p.declPkg[fn] == pk && fn.Name() == args[0] {
+			decl = fd
+		}
+	}
+	if decl == nil || decl.Body == nil {
+		rep.Undecided = "route_handlers: no function " + args[0]
+		return
+	}
+	want := map[string]string{}
+	var order []string
+	for _, a := range args[1:] {
+		k := strings.Index(a, "=")
+		if k <= 0 {
+			rep.Undecided = "route_handlers: bad entry " + a
+			return
+		}
+		want[a[:k]] = a[k+1:]
+		order = append(order, a[:k])
+	}
+	squash := func(s string) string { return strings.Join(strings.Fields(s), "") }
+	found := map[string][]string{}
+	ast.Inspect(decl.Body, func(n ast.Node) bool {
+		call, ok := n.(*ast.CallExpr)
+		if !ok {
+			return true
+		}
+		sel, ok := call.Fun.(*ast.SelectorExpr)
+		if !ok || sel.Sel.Name != "HandlerFunc" || len(call.Args) != 1 {
+			return true
+		}
+		// walk the receiver chain for .Path("<lit>")
+		path := ""
+		cur := sel.X
+		for cur != nil {
+			c, ok := unparen(cur).(*ast.CallExpr)
+			if !ok {
+				break
+			}
+			cs, ok := c.Fun.(*ast.SelectorExpr)
+			if !ok {
+				break
+			}
+			if cs.Sel.Name == "Path" && len(c.Args) == 1 {
+				if bl, ok := c.Args[0].(*ast.BasicLit); ok {
+					path = strings.Trim(bl.Value, "\"`")
+				}
+			}
+			cur = cs.X
+		}
+		if path != "" {
+			found[path] = append(found[path], squash(p.text(call.Args[0])))
+		}
+		return true
+	})
+	// second form: a table of positional route literals {name, method, pattern, handler}: key METHOD:pattern
+	ast.Inspect(decl.Body, func(n ast.Node) bool {
+		cl, ok := n.(*ast.CompositeLit)
+		if !ok || len(cl.Elts) != 4 {
+			return true
+		}
+		m, ok1 := cl.Elts[1].(*ast.BasicLit)
+		pt, ok2 := cl.Elts[2].(*ast.BasicLit)
+		if !ok1 || !ok2 || m.Kind != token.STRING || pt.Kind != token.STRING {
+			return true
+		}
+		key := strings.Trim(m.Value, "\"`") + ":" + strings.Trim(pt.Value, "\"`")
+		found[key] = append(found[key], squash(p.text(cl.Elts[3])))
+		return true
+	})
+	x, st := p.newSpecExec(d.PkgPath, name, false)
+	add := func(on, desc string, ok bool) {
+		goal := "true"
+		if !ok {
+			goal = "false"
+		}
+		o := &Obl{Name: name + "#" + on, Class: "table", PC: st.pc, Goal: goal, Desc: desc, Func: name, Pos: token.Position{Filename: d.File, Line: d.Line}}
+		x.vc.addObl(o)
+		items = append(items, specialItem{x.vc, o})
+		rep.NObl++
+	}
+	for _, path := range order {
+		hs := found[path]
+		ok := len(hs) == 1 && hs[0] == squash(want[path])
+		got := "not registered"
+		if len(hs) > 0 {
+			got = strings.Join(hs, ", ")
+		}
+		add("route("+path+")", "route "+path+" is answered by "+want[path]+" (registered: "+got+")", ok)
+	}
+	var paths []string
+	for path := range found {
+		paths = append(paths, path)
+	}
+	sort.Strings(paths)
+	for _, path := range paths {
+		_, ok := want[path]
+		add("hijacked("+path+")", "the hijacked route "+path+" is one the specification lists", ok)
+	}
+	rep.Dropped = append(rep.Dropped, fmt.Sprintf("%d registrations enumerated from the AST of %s; the router's own matching (methods, prefixes) is the library's", len(paths), args[0]))
 	delete(p.tmpInit, x)
 	delete(p.tmpGlobals, x)
 	return
